@@ -531,8 +531,11 @@ theorem good_lexGood : ∀ (cs : List Chunk) (prev : Option Kind), goodFrom prev
           · exact countNL_pos_ne_nil h
           · exact h.2
         | cls =>
-          simp only [Bool.and_eq_true, decide_eq_true_eq] at hcond
-          exact countNL_pos_ne_nil hcond.1
+          simp only [Bool.and_eq_true, Bool.or_eq_true, decide_eq_true_eq, Bool.not_eq_true',
+            List.isEmpty_eq_false_iff] at hcond
+          rcases hcond.1 with h | h
+          · exact countNL_pos_ne_nil h
+          · exact h.2
         | cmt =>
           simp only [Bool.and_eq_true, beq_iff_eq] at hcond
           intro h; rw [h] at hcond; simp at hcond
@@ -581,15 +584,31 @@ theorem countNL_braceLead (p : Option Kind) (c : Chunk) : countNL (braceLead p c
 
 theorem braceLead_mk (p : Option Kind) (sep : List Rune) (c : Chunk) : braceLead p ⟨sep, c.word⟩ = braceLead p c := rfl
 
+theorem all_ws_sameLine (p : Option Kind) (N : Nat) : (sameLine p N).all wsCh = true := by
+  unfold sameLine
+  split
+  · split
+    · simp [wsCh_NL]
+    · exact all_ws_tabsN N
+  · simp [wsCh_SP]
+
+theorem sameLine_cls_ne (N : Nat) : sameLine (some .cls) N ≠ [] := by
+  unfold sameLine
+  by_cases hN : N = 0
+  · simp [hN]
+  · cases N with
+    | zero => exact absurd rfl hN
+    | succ n => simp [tabsN, List.replicate_succ]
+
 theorem canonSep_all_ws (prev : Option Kind) (N : Nat) (c : Chunk) : (canonSep prev N c).all wsCh = true := by
   cases prev with
   | none => rfl
   | some k =>
     cases k <;> cases hk : c.kind <;>
       simp only [canonSep, hk, List.all_cons, List.all_nil, List.all_append, wsCh_NL, wsCh_SP, all_ws_tabsN,
-        all_ws_nlsN, all_ws_braceLead, Bool.and_self, reduceCtorEq, ↓reduceIte] <;>
+        all_ws_nlsN, all_ws_braceLead, all_ws_sameLine, Bool.and_self, reduceCtorEq, ↓reduceIte] <;>
       (try (split <;> simp only [List.all_cons, List.all_nil, List.all_append, wsCh_SP, all_ws_tabsN, all_ws_nlsN,
-        all_ws_braceLead, Bool.and_self]))
+        all_ws_braceLead, all_ws_sameLine, Bool.and_self]))
 
 /-- the canonical separator: non-CR white space, newline iff the original had one, starting
     with a newline after a comment -/
@@ -597,7 +616,7 @@ theorem canonSep_props {prev : Option Kind} {N : Nat} {c : Chunk} {cs : List Chu
     (hg : goodFrom prev (c :: cs) = true) :
     (canonSep prev N c).all wsCh = true ∧
       (prev ≠ none → canonSep prev N c ≠ [] ∧
-        ((prev = some .opn ∧ c.kind = .cmt) ∨ (0 < countNL (canonSep prev N c) ↔ 0 < c.nl))) ∧
+        (((prev = some .opn ∨ prev = some .cls) ∧ c.kind = .cmt) ∨ (0 < countNL (canonSep prev N c) ↔ 0 < c.nl))) ∧
       (prev = none → canonSep prev N c = [] ∧ c.nl = 0) ∧
       (prev = some .cmt → (canonSep prev N c).head? = some rNL) := by
   simp only [goodFrom, Bool.and_eq_true] at hg
@@ -609,9 +628,19 @@ theorem canonSep_props {prev : Option Kind} {N : Nat} {c : Chunk} {cs : List Chu
   | some k =>
     refine ⟨canonSep_all_ws _ _ _, fun _ => ?_, fun h => absurd h (by simp), fun hk => ?_⟩
     · -- non-empty, and newline iff newline (a comment right after `{` is moved to the next line)
-      by_cases hoc : k = .opn ∧ c.kind = .cmt
-      · obtain ⟨rfl, hkc⟩ := hoc
-        exact ⟨by simp [canonSep], Or.inl ⟨rfl, hkc⟩⟩
+      by_cases hoc : (k = .opn ∨ k = .cls) ∧ c.kind = .cmt
+      · obtain ⟨hk', hkc⟩ := hoc
+        rcases hk' with rfl | rfl
+        · exact ⟨by simp [canonSep], Or.inl ⟨Or.inl rfl, hkc⟩⟩
+        · refine ⟨?_, Or.inl ⟨Or.inr rfl, hkc⟩⟩
+          simp only [canonSep, hkc]
+          split
+          · exact sameLine_cls_ne N
+          · rename_i hnl
+            have : min c.nl 2 ≠ 0 := by omega
+            cases hm : min c.nl 2 with
+            | zero => exact absurd hm this
+            | succ n => simp [nlsN, List.replicate_succ]
       · suffices h : canonSep (some k) N c ≠ [] ∧ (0 < countNL (canonSep (some k) N c) ↔ 0 < c.nl) from
           ⟨h.1, Or.inr h.2⟩
         have hplainlike : ∀ (bl : List Rune) (hbl : countNL bl = 0) (hsome : c.nl = 0 ∨ 0 < c.nl),
@@ -632,9 +661,9 @@ theorem canonSep_props {prev : Option Kind} {N : Nat} {c : Chunk} {cs : List Chu
         | plain =>
           simp only [Bool.and_eq_true, Bool.not_eq_true', List.isEmpty_eq_false_iff] at hcond
           cases hk : c.kind with
-          | plain => simpa [canonSep, hk] using hplainlike (braceLead _ c) (countNL_braceLead _ c) (by omega)
-          | dq => simpa [canonSep, hk] using hplainlike (braceLead _ c) (countNL_braceLead _ c) (by omega)
-          | cmt => simpa [canonSep, hk] using hplainlike (braceLead _ c) (countNL_braceLead _ c) (by omega)
+          | plain => simpa [canonSep, sameLine, hk] using hplainlike (braceLead _ c) (countNL_braceLead _ c) (by omega)
+          | dq => simpa [canonSep, sameLine, hk] using hplainlike (braceLead _ c) (countNL_braceLead _ c) (by omega)
+          | cmt => simpa [canonSep, sameLine, hk] using hplainlike (braceLead _ c) (countNL_braceLead _ c) (by omega)
           | opn =>
             rw [hk] at hcond
             simp only [beq_iff_eq] at hcond
@@ -647,9 +676,9 @@ theorem canonSep_props {prev : Option Kind} {N : Nat} {c : Chunk} {cs : List Chu
         | dq =>
           simp only [Bool.and_eq_true, Bool.not_eq_true', List.isEmpty_eq_false_iff] at hcond
           cases hk : c.kind with
-          | plain => simpa [canonSep, hk] using hplainlike (braceLead _ c) (countNL_braceLead _ c) (by omega)
-          | dq => simpa [canonSep, hk] using hplainlike (braceLead _ c) (countNL_braceLead _ c) (by omega)
-          | cmt => simpa [canonSep, hk] using hplainlike (braceLead _ c) (countNL_braceLead _ c) (by omega)
+          | plain => simpa [canonSep, sameLine, hk] using hplainlike (braceLead _ c) (countNL_braceLead _ c) (by omega)
+          | dq => simpa [canonSep, sameLine, hk] using hplainlike (braceLead _ c) (countNL_braceLead _ c) (by omega)
+          | cmt => simpa [canonSep, sameLine, hk] using hplainlike (braceLead _ c) (countNL_braceLead _ c) (by omega)
           | opn =>
             rw [hk] at hcond
             simp only [beq_iff_eq] at hcond
@@ -664,15 +693,20 @@ theorem canonSep_props {prev : Option Kind} {N : Nat} {c : Chunk} {cs : List Chu
           have hnl : c.nl ≥ 1 := by
             rcases hcond.1 with h | h
             · exact h
-            · exact absurd ⟨rfl, h.1⟩ hoc
+            · exact absurd ⟨Or.inl rfl, h.1⟩ hoc
           simp only [canonSep, countNL, countNL_tabsN]
           exact ⟨by simp, by simp; omega⟩
         | cls =>
-          simp only [Bool.and_eq_true, decide_eq_true_eq, bne_iff_ne, ne_eq] at hcond
+          simp only [Bool.and_eq_true, Bool.or_eq_true, decide_eq_true_eq, beq_iff_eq, bne_iff_ne, ne_eq] at hcond
+          have hnl1 : c.nl ≥ 1 := by
+            rcases hcond.1 with h | h
+            · exact h
+            · exact absurd ⟨Or.inr rfl, h.1⟩ hoc
+          have hnl0 : c.nl ≠ 0 := by omega
           cases hk : c.kind with
-          | plain => simpa [canonSep, hk] using hplainlike (braceLead _ c) (countNL_braceLead _ c) (by omega)
-          | dq => simpa [canonSep, hk] using hplainlike (braceLead _ c) (countNL_braceLead _ c) (by omega)
-          | cmt => simpa [canonSep, hk] using hplainlike (braceLead _ c) (countNL_braceLead _ c) (by omega)
+          | plain => simpa [canonSep, hk, hnl0] using hplainlike (braceLead _ c) (countNL_braceLead _ c) (by omega)
+          | dq => simpa [canonSep, hk, hnl0] using hplainlike (braceLead _ c) (countNL_braceLead _ c) (by omega)
+          | cmt => exact absurd ⟨Or.inr rfl, hk⟩ hoc
           | opn => exact absurd hk hcond.2
           | cls =>
             simp only [canonSep, hk, countNL, countNL_tabsN]
@@ -717,14 +751,11 @@ theorem good_canon : ∀ (cs : List Chunk) (prev : Option Kind) (N : Nat), goodF
       exact ⟨by rw [(hprops.2.2.1 rfl).1]; rfl, hcond.2⟩
     | some k =>
       obtain ⟨hne, hiff0⟩ := hprops.2.1 (by simp)
-      have hiff : k ≠ .opn → (0 < (⟨canonSep (some k) N c, c.word⟩ : Chunk).nl ↔ 0 < c.nl) := by
-        intro hk
-        rcases hiff0 with h | h
-        · exact absurd (Option.some.inj h.1) hk
-        · exact h
+      have hiff : ¬((some k = some Kind.opn ∨ some k = some Kind.cls) ∧ c.kind = .cmt) →
+          (0 < (⟨canonSep (some k) N c, c.word⟩ : Chunk).nl ↔ 0 < c.nl) := fun hx => hiff0.resolve_left hx
       cases k with
       | plain =>
-        have hiff := hiff (by decide)
+        have hiff := hiff (by simp)
         simp only [Bool.and_eq_true, Bool.not_eq_true', List.isEmpty_eq_false_iff] at hcond ⊢
         refine ⟨hne, ?_⟩
         cases hk : c.kind with
@@ -740,7 +771,7 @@ theorem good_canon : ∀ (cs : List Chunk) (prev : Option Kind) (N : Nat), goodF
           have := hcond.2
           simp only [decide_eq_true_eq]; omega
       | dq =>
-        have hiff := hiff (by decide)
+        have hiff := hiff (by simp)
         simp only [Bool.and_eq_true, Bool.not_eq_true', List.isEmpty_eq_false_iff] at hcond ⊢
         refine ⟨hne, ?_⟩
         cases hk : c.kind with
@@ -762,11 +793,20 @@ theorem good_canon : ∀ (cs : List Chunk) (prev : Option Kind) (N : Nat), goodF
           simp only [nl_mk, canonSep, countNL]; simp
         simp [this]
       | cls =>
-        have hiff := hiff (by decide)
-        simp only [Bool.and_eq_true, decide_eq_true_eq] at hcond
-        have := hcond.1
-        simp only [Bool.and_eq_true, decide_eq_true_eq]
-        exact ⟨by omega, hcond.2⟩
+        simp only [Bool.and_eq_true] at hcond ⊢
+        refine ⟨?_, hcond.2⟩
+        by_cases hkc : c.kind = .cmt
+        · have : (⟨canonSep (some .cls) N c, c.word⟩ : Chunk).sep ≠ [] := hne
+          simp [hkc, this]
+        · have hiff := hiff (by simp [hkc])
+          have h1 := hcond.1
+          simp only [Bool.or_eq_true, decide_eq_true_eq, Bool.and_eq_true, beq_iff_eq] at h1
+          have hnl : c.nl ≥ 1 := by
+            rcases h1 with h | h
+            · exact h
+            · exact absurd h.1 hkc
+          have : (⟨canonSep (some .cls) N c, c.word⟩ : Chunk).nl ≥ 1 := by omega
+          simp [this]
       | cmt =>
         simp only [Bool.and_eq_true, beq_iff_eq] at hcond ⊢
         exact ⟨hprops.2.2.2 rfl, hcond.2⟩
@@ -797,23 +837,35 @@ theorem canonSep_idem (prev : Option Kind) (N : Nat) (c : Chunk) :
       cases hk : c.kind with
       | opn => simp only [canonSep, kind_with_sep, hk]
       | cls => simp only [canonSep, kind_with_sep, hk]
-      | plain => simpa [canonSep, kind_with_sep, nl_mk, braceLead_mk, hk] using hplainlike (braceLead _ c) (countNL_braceLead _ c)
-      | dq => simpa [canonSep, kind_with_sep, nl_mk, braceLead_mk, hk] using hplainlike (braceLead _ c) (countNL_braceLead _ c)
-      | cmt => simpa [canonSep, kind_with_sep, nl_mk, braceLead_mk, hk] using hplainlike (braceLead _ c) (countNL_braceLead _ c)
+      | plain => simpa [canonSep, kind_with_sep, nl_mk, braceLead_mk, sameLine, hk] using hplainlike (braceLead _ c) (countNL_braceLead _ c)
+      | dq => simpa [canonSep, kind_with_sep, nl_mk, braceLead_mk, sameLine, hk] using hplainlike (braceLead _ c) (countNL_braceLead _ c)
+      | cmt => simpa [canonSep, kind_with_sep, nl_mk, braceLead_mk, sameLine, hk] using hplainlike (braceLead _ c) (countNL_braceLead _ c)
     | dq =>
       cases hk : c.kind with
       | opn => simp only [canonSep, kind_with_sep, hk]
       | cls => simp only [canonSep, kind_with_sep, hk]
-      | plain => simpa [canonSep, kind_with_sep, nl_mk, braceLead_mk, hk] using hplainlike (braceLead _ c) (countNL_braceLead _ c)
-      | dq => simpa [canonSep, kind_with_sep, nl_mk, braceLead_mk, hk] using hplainlike (braceLead _ c) (countNL_braceLead _ c)
-      | cmt => simpa [canonSep, kind_with_sep, nl_mk, braceLead_mk, hk] using hplainlike (braceLead _ c) (countNL_braceLead _ c)
+      | plain => simpa [canonSep, kind_with_sep, nl_mk, braceLead_mk, sameLine, hk] using hplainlike (braceLead _ c) (countNL_braceLead _ c)
+      | dq => simpa [canonSep, kind_with_sep, nl_mk, braceLead_mk, sameLine, hk] using hplainlike (braceLead _ c) (countNL_braceLead _ c)
+      | cmt => simpa [canonSep, kind_with_sep, nl_mk, braceLead_mk, sameLine, hk] using hplainlike (braceLead _ c) (countNL_braceLead _ c)
     | cls =>
+      have hcls : (if countNL (if c.nl = 0 then sameLine (some .cls) N else nlsN (min c.nl 2) ++ tabsN N) = 0
+            then sameLine (some .cls) N
+            else nlsN (min (countNL (if c.nl = 0 then sameLine (some .cls) N else nlsN (min c.nl 2) ++ tabsN N)) 2) ++ tabsN N)
+          = (if c.nl = 0 then sameLine (some .cls) N else nlsN (min c.nl 2) ++ tabsN N) := by
+        by_cases hnl : c.nl = 0
+        · by_cases hN : N = 0
+          · simp [hnl, hN, sameLine, countNL, rNL, nlsN, tabsN, List.replicate_succ]
+          · simp [hnl, hN, sameLine, countNL_tabsN]
+        · have h2 : min c.nl 2 ≠ 0 := by omega
+          have h3 : min (min c.nl 2) 2 = min c.nl 2 := by omega
+          simp [hnl, countNL_append, countNL_nlsN, countNL_tabsN, h2, h3]
+      have hbl0 : ∀ (d : Chunk), braceLead (some .cls) d = [] := by intro d; simp [braceLead]
       cases hk : c.kind with
       | opn => simp only [canonSep, kind_with_sep, hk]
       | cls => simp only [canonSep, kind_with_sep, hk]
-      | plain => simpa [canonSep, kind_with_sep, nl_mk, braceLead_mk, hk] using hplainlike (braceLead _ c) (countNL_braceLead _ c)
-      | dq => simpa [canonSep, kind_with_sep, nl_mk, braceLead_mk, hk] using hplainlike (braceLead _ c) (countNL_braceLead _ c)
-      | cmt => simpa [canonSep, kind_with_sep, nl_mk, braceLead_mk, hk] using hplainlike (braceLead _ c) (countNL_braceLead _ c)
+      | plain => simpa [canonSep, kind_with_sep, nl_mk, hbl0, hk] using hcls
+      | dq => simpa [canonSep, kind_with_sep, nl_mk, hbl0, hk] using hcls
+      | cmt => simpa [canonSep, kind_with_sep, nl_mk, hbl0, hk] using hcls
 
 theorem canon_idem : ∀ (cs : List Chunk) (prev : Option Kind) (N : Nat),
     canon prev N (canon prev N cs) = canon prev N cs
@@ -989,8 +1041,8 @@ theorem gOf_canon : ∀ (cs : List Chunk) (prev : Option Kind) (N : Nat) (first 
     have hprops := canonSep_props (N := N) hg
     have hg' : goodFrom (some c.kind) cs = true := by
       simp only [goodFrom, Bool.and_eq_true] at hg; exact hg.2
-    by_cases hoc : prev = some .opn ∧ c.kind = .cmt
-    · -- a comment right after `{`: it moves to the next line, but the token after a comment
+    by_cases hoc : (prev = some .opn ∨ prev = some .cls) ∧ c.kind = .cmt
+    · -- a comment right after `{` or `}`: it moves to the next line, but the token after a comment
       -- starts a new line anyway
       have hcm : isCmtW c.word = true := (kind_cmt_iff c).mp hoc.2
       simp only [canon, gOf, hcm, ↓reduceIte]
